@@ -23,6 +23,8 @@ class GenProp(Prop):
     def gen(self, rng, i, tier):
         r = rng.random()
         small = rng.random() < 0.3
+        if i % 100 == 37:
+            return gc.gen_fast_case(rng, big=True)
         if r < 0.42:
             return gc.gen_fast_case(rng, small=small)
         if r < 0.84:
